@@ -5,6 +5,7 @@ import "oxverif/harness/core"
 // Targets maps property ids to their correspondence targets.
 var Targets = map[string]core.Target{
 	"C11": C11{},
+	"C06": C06{},
 	"C08": C08{},
 	"C09": C09{},
 	"C10": C10{},
